@@ -127,6 +127,8 @@ PAIR_CASE = st.fixed_dictionaries({
 
 
 def text_of(c):
+    if "shape" in c:
+        return c["shape"]
     if "unit" in c:
         return pump(PREFIXES[c["prefix"]], c["unit"], c["suffix"], c["frac"])
     if "a" in c:
@@ -268,6 +270,8 @@ def family(c, text):
         return f"pump:{c['prefix']}:{canon_unit(pair_unit(c))}"
     if "rep" in c:
         return f"rep:{c['rep']}"
+    if "shape" in c:
+        return f"shape:{c['token']}"
     return "soup"
 
 
@@ -289,6 +293,38 @@ def classes(c):
 
 def render(c):
     return {"text": text_of(c), "entry": "Tract(text, parse_qq=True)" if c.get("kind") == "tract" else "PLSSDesc(text, parse_qq=True)", "config": c.get("config", "")}
+
+
+# short shapes: every token of the PLSS vocabulary, and the rare-but-legal forms below, alone and in the places where they are read ---
+# (no pumping: a loop that never ends shows on a description of a dozen characters)
+
+RARE_SHAPES = [
+    # ranges whose two ends are the same number; zero; numbers at the top of their range
+    "Sec 5 - 5", "Sections 12 thru 12", "Section 8 to 8", "Secs 1, 3 - 3, 5", "Lots 3 - 3", "Lot 2 to 2", "Lots 1, 4 - 4", "Sec 36 - 36", "Sec 99 - 99",
+    "Lot 0", "L00", "Lots 0 - 3", "Lots 1, 2, 0, 4", "Lots 3 - 0", "Sec 0", "Sec 00 - 00", "Sec 0 - 0", "Lot 999", "Lots 998 - 999", "Sec 99", "Sec 100", "Lot 1000",
+    # an aliquot that is only referred to (a boundary call), a lot likewise
+    "north of the south line of the NW/4NE/4", "to the east line of the NW/4NW/4", "the northeast corner of the SE/4", "along the boundary of said N/2",
+    "east of the west line of Lot 3", "the corner of Lots 1 - 3", "line of the NE/4", "corner of NE/4NE/4", "boundary of the N½NE¼",
+    # acreage brackets
+    "Lot 1()", "Lots 1(38.29), 2[]", "L1() thru L4", "Lot 3( )", "Lot 1((40))", "Lot 1(40", "Lot 1 40)", "Lots 1(.5) - 3(0)",
+    # keyword directly followed by keyword / end
+    "Sec", "Sec Sec", "Lot Lot 1", "Lots", "Lots thru", "Sec 1 thru", "thru 3", "Sec -", "Lots -", "NE/4 of", "of the of the",
+    "ALL ALL", "all of all of", "N/2N/2N/2N/2N/2N/2", "NENENENENENENENE", "N2N2N2N2N2N2",
+]
+
+
+def enum_shapes(tier):
+    toks = list(dict.fromkeys([t for t in soup.TOKENS if t.strip()] + RARE_SHAPES))
+    cases = []
+    for tok in toks:
+        frames = [("tract", tok), ("tract", f"{tok}, NE/4"), ("plss", tok), ("plss", f"T154N-R97W Sec 14: {tok}"), ("plss", f"T154N-R97W {tok}: NE/4"),
+                  ("plss", f"T154N-R97W Sec 14: NE/4, {tok}"), ("plss", f"{tok}, T154N-R97W"), ("plss", f"NE/4 of {tok}, T154N-R97W")]
+        for kind, text in frames:
+            cases.append({"shape": text, "token": tok, "kind": kind, "config": ""})
+        if tier == "thorough" or tok in RARE_SHAPES:
+            for cfg in MODE_CONFIGS:
+                cases.append({"shape": f"T154N-R97W Sec 14: {tok}", "token": tok, "kind": "plss", "config": cfg})
+    return cases
 
 
 # long sessions: the cost of a parse does not creep up with the number of parses the process has done before ------------------
@@ -334,6 +370,8 @@ SUBS = [
         n={"quick": 600, "thorough": 5000}, shards={"quick": 4, "thorough": 16}, essential=tuple(f"rep={k}" for k in REP_KINDS), max_shrink=12),
     Sub("soup", oracle, strategy=lambda tier: SOUP_CASE, nontrivial=lambda c: _last.get("len", 0) >= 100, classes=classes, render=render,
         n={"quick": 800, "thorough": 8000}, shards={"quick": 4, "thorough": 16}, text_keys=("text",), max_shrink=20),
+    Sub("short_shapes", oracle, enumerate=enum_shapes, nontrivial=lambda c: c.get("token") in RARE_SHAPES, classes=lambda c: [f"status={_last.get('status')}", f"entry={c['kind']}"], render=render,
+        exhaustive=True, shards={"quick": 8, "thorough": 16}, budget_s={"quick": 170, "thorough": 1500}, max_shrink=0),
     Sub("long_session", oracle_session, enumerate=enum_sessions, nontrivial=lambda c: True, classes=lambda c: [f"session={c['session']}", f"status={_last.get('status')}"],
         render=lambda c: c, exhaustive=False, shards={"quick": 7, "thorough": 7}, budget_s={"quick": 170, "thorough": 1500}, max_shrink=0),
 ]
